@@ -340,6 +340,64 @@ def C10(ctx):
                          "InsufficientBaseProofs", "Trap"])
 
 
+def _idtypes_replay(ctx, cases, record=True):
+    p = ctx.wpath("idtypes-%d.ndjson" % len(cases))
+    write_ndjson(p, cases)
+    rc, out = vh(BIN, ["idtypes", "replay"], stdin_path=p, timeout=3600, check=False)
+    _rm(p)
+    mism, done = [], None
+    for line in out.splitlines():
+        o = json.loads(line)
+        if "toolerror" in o:
+            raise ToolError("harness: " + o["toolerror"])
+        if "mismatch" in o:
+            mism.append(o)
+        elif "done" in o:
+            done = o
+    if rc != 0 or done is None or done["done"] != len(cases):
+        raise ToolError("id-type replay did not complete (rc=%s)" % rc)
+    if record:
+        for o in mism:
+            c = cases[o["b"]]
+            ctx.violation("idtypes:%s:%s" % (o["mismatch"], c[min(o["step"], len(c) - 1)]["op"]),
+                          "id types, step %d: %s expected %s got %s" % (o["step"], o["mismatch"], json.dumps(o["exp"])[:200], json.dumps(o["got"])[:300]),
+                          {"module": "idtypes", "case": c, "mismatch": o})
+        ctx.cov["traces_validated_against_impl"] += len(cases)
+        ctx.cov["evaluations"] += done["steps"]
+    return mism
+
+
+def _idtypes(ctx, res):
+    """C43 'every minted id has the resource's id type': the full product (declared id type) x (kinds of the supplied ids) for creation
+    with initial supply and for mint after creation, incl. RUID entry points; never sampled, same in quick and thorough."""
+    r = tlc(SPEC, "IdTypes", cfg="MCIdTypes", workers=1, heap="1g")
+    tlc_must_pass(r, "IdTypes", required_actions=["Create", "CreateRuid", "Mint", "MintRuid"])
+    ctx.add_tlc(r)
+    cases = r.printed("B")
+    if len(cases) < 300:
+        raise ToolError("id-type cases: only %d generated" % len(cases))
+    refused = sum(1 for c in cases for s in c if not s["ok"])
+    if not any(s["op"] == "create" and not s["ok"] and s["err"] == "NonFungibleIdTypeDoesNotMatch" for c in cases for s in c):
+        raise ToolError("vacuous id-type set: no refused creation")
+    _idtypes_replay(ctx, cases)
+    # binding: a refusal turned into an acceptance in the expectation must be reported
+    bad = json.loads(json.dumps(next(c for c in cases if c[0]["op"] == "create" and not c[0]["ok"] and c[0]["d"] == "Integer")))
+    bad[0]["ok"] = True
+    if not _idtypes_replay(ctx, [bad], record=False):
+        raise ToolError("self-test: corrupted id-type expectation not reported")
+    ctx.sample({"id_type_case": next(c for c in cases if len(c) == 2 and not c[1]["ok"])})
+    res["id_type_cases"] = len(cases)
+    res["id_type_refusals_predicted"] = refused
+    res["distinct_nontrivial"] += len(cases)
+    res["rule"] += (" ID TYPES (never sampled): IdTypes.tla enumerates the full product (declared id type Integer / String / Bytes / RUID) x (kinds of the "
+                    "supplied ids: every sequence of 0..2 ids over Integer / String / Bytes / explicit RUID) for create_with_initial_supply, "
+                    "create_ruid_with_initial_supply, and for mint / mint_ruid after every successful creation (%d cases, %d predicted refusals: "
+                    "NonFungibleIdTypeDoesNotMatch, NonFungibleLocalIdProvidedForRUIDType, InvalidNonFungibleIdType); TLC checks TypeSafe (every stored id "
+                    "has the declared type), Refused, Accepted; every case is executed on a real ledger and the outcome, error class, the declared "
+                    "IdType field and EVERY id stored (data entries of the resource manager and the holder's vault) are compared, with the id type of "
+                    "each stored id checked against the declared one." % (len(cases), refused))
+
+
 def C43(ctx):
     q = ctx.quick
     behs = _run(ctx,
@@ -347,7 +405,7 @@ def C43(ctx):
                 [("bnd", "BndLedgerH" if q else "BndLedgerAll", 0, 0, None),
                  ("sim", "SimLedgerNF", 500 if q else 10000, 20, None)] +
                 ([] if q else [("exh", "GenLedgerTinyHist", 0, 0, None), ("sim", "SimLedgerAll", 4000, 12, None)]))
-    return _finish(ctx, behs,
+    res = _finish(ctx, behs,
                    "S: TLC checks on all histories of <= 2/3 transactions of <= 3 instructions over an integer-id and a RUID resource "
                    "(3 ids each; mint, mint of a wrongly typed id, RUID mint, burn, burn in account, update data of a mutable and an "
                    "immutable field of a 4-field data type in mixed order (a, c immutable; b, d mutable; distinct value per field), of an unknown field name, failing transactions) LiveSubsetEver, HeldIdsAreLive, MintedOnce (history counter), EverMonotone, "
@@ -361,6 +419,8 @@ def C43(ctx):
                            "WithdrawNFAmount", "UpdateNFData", "DepositBatch", "TakeAll", "WithdrawNF"],
                    errs=["NonFungibleAlreadyExists", "KeyValueEntryLocked", "NonFungibleNotFound", "UnknownMutableFieldName",
                          "NonFungibleIdTypeDoesNotMatch", "InvalidNonFungibleIdType", "MissingId"])
+    _idtypes(ctx, res)
+    return res
 
 
 def C04(ctx):
@@ -534,7 +594,8 @@ PROPS = {
                 text="Per non-fungible resource the model keeps the live ids with their data and the set of ids ever minted. TLC checks over "
                      "all bounded histories incl. failed transactions that an id is minted at most once ever (also after burn; a failed "
                      "mint does not consume it), that minted ids have the resource's id type (a string id for an integer resource and an "
-                     "explicit id for a RUID resource are rejected), and that data changes only through UpdateData of a live id and a "
+                     "explicit id for a RUID resource are rejected; IdTypes.tla: the full product declared type x supplied id kinds for creation with initial "
+                     "supply and for mint), and that data changes only through UpdateData of a live id and a "
                      "mutable field, changing exactly that field. Histories are replayed on a real ledger (integer and RUID resources) whose data type has four "
                      "fields in mixed order (immutable, mutable, immutable, mutable) with a different value in each; EVERY field of every data entry "
                      "(live / locked tombstone / absent) is read back after every transaction.",
